@@ -176,6 +176,112 @@ func VMap(k, v *T, kvs ...[2]*V) *V {
 	m.sortKVs()
 	return m
 }
+
+// VMapOrdered is a map whose encoding keeps the entries in the order given (VMap puts them in the codec's
+// canonical order). The Go map that Realise builds is the same either way — a Go map has no order; the model,
+// which gets the entries in the order of the encoding, has to sort them wherever the code sorts the keys.
+func VMapOrdered(k, v *T, kvs ...[2]*V) *V { return &V{Kind: 'M', KTy: k, VTy: v, KVs: kvs} }
+
+// Shuffled returns a deep copy of v in which the entries of every map (and the fields of every
+// IterationKeyedMap), at every depth, are in a pseudo-random order drawn from g. ParseV, Enc and Realise keep
+// the order of the entries they are given.
+func (v *V) Shuffled(g *RNG) *V {
+	if v == nil {
+		return nil
+	}
+	c := *v
+	if v.Xs != nil {
+		c.Xs = make([]*V, len(v.Xs))
+		for i, x := range v.Xs {
+			c.Xs[i] = x.Shuffled(g)
+		}
+	}
+	if v.KVs != nil {
+		c.KVs = make([][2]*V, len(v.KVs))
+		for i, kv := range v.KVs {
+			c.KVs[i] = [2]*V{kv[0].Shuffled(g), kv[1].Shuffled(g)}
+		}
+		if v.Kind == 'M' {
+			for i := len(c.KVs) - 1; i > 0; i-- {
+				j := g.Intn(i + 1)
+				c.KVs[i], c.KVs[j] = c.KVs[j], c.KVs[i]
+			}
+		}
+	}
+	if v.Fs != nil {
+		c.Fs = make([]Field, len(v.Fs))
+		for i, f := range v.Fs {
+			c.Fs[i] = Field{f.Name, f.V.Shuffled(g)}
+		}
+		if v.Kind == 'K' {
+			for i := len(c.Fs) - 1; i > 0; i-- {
+				j := g.Intn(i + 1)
+				c.Fs[i], c.Fs[j] = c.Fs[j], c.Fs[i]
+			}
+		}
+	}
+	if v.In != nil {
+		c.In = v.In.Shuffled(g)
+	}
+	return &c
+}
+
+// Canon returns a deep copy of v with the entries of every map and the fields of every IterationKeyedMap in the
+// codec's canonical order (what VMap and VKeyed build): the inverse of Shuffled, for the oracles that read a
+// value tree parsed from a case line.
+func (v *V) Canon() *V {
+	if v == nil {
+		return nil
+	}
+	c := *v
+	if v.Xs != nil {
+		c.Xs = make([]*V, len(v.Xs))
+		for i, x := range v.Xs {
+			c.Xs[i] = x.Canon()
+		}
+	}
+	if v.KVs != nil {
+		c.KVs = make([][2]*V, len(v.KVs))
+		for i, kv := range v.KVs {
+			c.KVs[i] = [2]*V{kv[0].Canon(), kv[1].Canon()}
+		}
+		if v.Kind == 'M' {
+			c.sortKVs()
+		}
+	}
+	if v.Fs != nil {
+		c.Fs = make([]Field, len(v.Fs))
+		for i, f := range v.Fs {
+			c.Fs[i] = Field{f.Name, f.V.Canon()}
+		}
+		if v.Kind == 'K' {
+			sort.SliceStable(c.Fs, func(i, j int) bool { return c.Fs[i].Name < c.Fs[j].Name })
+		}
+	}
+	if v.In != nil {
+		c.In = v.In.Canon()
+	}
+	return &c
+}
+
+// ShuffledEnv: every binding Shuffled (the bindings map itself is encoded in key order; the model reads it by key).
+func ShuffledEnv(env map[string]*V, g *RNG) map[string]*V {
+	out := make(map[string]*V, len(env))
+	for _, k := range sortedKeys(env) {
+		out[k] = env[k].Shuffled(g)
+	}
+	return out
+}
+
+// CanonEnv: every binding in canonical order.
+func CanonEnv(env map[string]*V) map[string]*V {
+	out := make(map[string]*V, len(env))
+	for k, v := range env {
+		out[k] = v.Canon()
+	}
+	return out
+}
+
 func VStrMap(kvs ...[2]*V) *V   { return VMap(TStr, TAny, kvs...) }
 func VMapSlice(kvs ...[2]*V) *V { return &V{Kind: 'S', KVs: kvs} }
 func VKeyed(fs ...Field) *V {
